@@ -11,6 +11,7 @@ inductive Event
   | install (q : ISReq) (failAt crashAt : Option Nat)
   | timeoutNow
   | restart
+  | damagedRestart          -- the newest readable snapshot is damaged, then the process restarts
   | setRole (r : Role) (leader leaderId : Nat)
 deriving Repr
 
@@ -47,12 +48,14 @@ def planOf (w : World) : Event → Option (Plan × Option Nat × Option Nat)
   | .install q f c => some (isPlan w.cf w.d w.v q, f, c)
   | .timeoutNow => some (timeoutNowPlan w.v, none, none)
   | .restart => none
+  | .damagedRestart => none
   | .setRole _ _ _ => none
 
 def stepEvent (w : World) (e : Event) : World × Obs :=
   if w.dead then (w, deadObs w.d) else
   match e with
   | .restart => boot w.cf w.d
+  | .damagedRestart => boot w.cf { w.d with snaps := damageNewest w.d.snaps }
   | .setRole r l lid =>
       let v : Vol := { w.v with role := r, leader := l, leaderId := if l = 0 then 0 else lid }
       ({ w with v := v }, ⟨false, false, .none, [], v, w.d, []⟩)
